@@ -24,6 +24,8 @@ def content(kind, f, t):
         return {'o': {'k': 'alias', 'n': 'n'}}
     if kind == 'fixed':
         return {'n': {'k': 'roles', 'r': [f + '@fixed']}}
+    if kind == 'rolenew':
+        return {'o': {'k': 'roles', 'r': ['n']}}
     if kind == 'oldsame':
         return {'o': {'k': 'roles', 'r': ['old'], 'text': '(role:old)'}}
     return {'n': {'k': 'roles', 'r': [stamp(f, t)]}, 'n2': {'k': 'roles', 'r': [stamp(f, t) + '#2']}}
@@ -31,7 +33,10 @@ def content(kind, f, t):
 
 STYLES = [('role:dflt', 'role:old'), ('(role:dflt)', 'role:old and @'), ('role:dflt or !', '! or role:old'),
           ('not not role:dflt', '(role:old or role:old)'), ('role:dflt and role:dflt', 'role:old and not !'),
-          ('@ and role:dflt', '(role:old and role:old) or !')]
+          ('@ and role:dflt', '(role:old and role:old) or !'),
+          # check strings that differ in letter case only and mean different things (rule names are
+          # case-sensitive; the two helper rules are registered next to the defaults)
+          ('rule:hlp', 'rule:HLP')]
 
 
 def defaults_for(variant, style=0, reason='r', since='s'):
@@ -88,6 +93,7 @@ def new_enforcer(box, variant, enforce_new, defaults=None, overwrite=True, warn=
     conf.set_override('enforce_new_defaults', bool(enforce_new), group='oslo_policy')
     e.suppress_deprecation_warnings = not warn
     dl = defaults if defaults is not None else defaults_for(variant)
+    e.register_defaults([policy.RuleDefault('hlp', 'role:dflt'), policy.RuleDefault('HLP', 'role:old')])
     e.register_defaults(dl if nreg is None else dl[:nreg])
     return e
 
@@ -100,6 +106,11 @@ def decisions(e, roles, via='enforce'):
         for r in roles:
             if via == 'enforce':
                 if e.enforce(n, {}, {'roles': [r]}):
+                    ok.append(r)
+            elif via == 'check':
+                # the rule given as a check object that refers to the policy by name
+                from oslo_policy import _checks
+                if e.enforce(_checks.RuleCheck('rule', n), {}, {'roles': [r]}):
                     ok.append(r)
             else:
                 chk = e.rules.get(n)
@@ -135,6 +146,7 @@ class Live:
 
     def __init__(self, rng, variant, enforce_new, defaults=None, via='enforce', overwrite=True, warn=None, box=None, late=False):
         self.box = box if box is not None else fsbox.Box(rng)
+        self.rng = rng
         self.own_box = box is None
         self.peers = [self]                 # every enforcer reading the same files records every file event
         self.variant, self.enforce_new, self.via, self.overwrite = variant, enforce_new, via, overwrite
@@ -142,7 +154,7 @@ class Live:
         self.snap = snapshot_defaults(self.defaults)
         self.warn = (rng.random() < 0.5) if warn is None else warn
         self.e = new_enforcer(self.box, variant, enforce_new, self.defaults, overwrite, warn=self.warn, nreg=0)
-        self.roles = ['dflt', 'old', 'nobody'] + [f + '@fixed' for f in MUTABLE]
+        self.roles = ['dflt', 'old', 'nobody', 'n'] + [f + '@fixed' for f in MUTABLE]
         self.trace = []
         self.last_print = None
         self.synced = False
@@ -175,9 +187,19 @@ class Live:
             rec['warn'] = []
             try:
                 import warnings as _w
+                fresh_dec = None
+                if self.rng.random() < 0.4:
+                    # the newly constructed enforcer may just as well read the files BEFORE the long-lived one
+                    fresh0 = new_enforcer(self.box, self.variant, getattr(self, 'enforce_new_now', self.enforce_new), self.defaults, self.overwrite, nreg=self.nreg)
+                    fresh_dec = decisions(fresh0, self.roles, 'enforce')
+                    rec['_fresh_first'] = True
                 with _w.catch_warnings(record=True) as caught:
                     _w.simplefilter('always')
-                    self.e.load_rules(bool(ev[1]))          # exactly one load_rules call is observed
+                    if self.via == 'check' and not ev[1]:
+                        # no explicit load: the first enforcement call (rule given as a check object) loads
+                        rec['warnon'] = 0
+                    else:
+                        self.e.load_rules(bool(ev[1]))          # exactly one load_rules call is observed
                 if self.warn:
                     for w in caught:
                         m = str(w.message)
@@ -199,8 +221,10 @@ class Live:
                     for r in self.roles:
                         if self.e.enforce(d.name, {}, {'roles': [r], 'system_scope': 'all'}):
                             rec['scopeblk'] = 0
-                fresh = new_enforcer(self.box, self.variant, getattr(self, 'enforce_new_now', self.enforce_new), self.defaults, self.overwrite, nreg=self.nreg)
-                rec['fresh'] = decisions(fresh, self.roles, 'enforce')
+                if fresh_dec is None:
+                    fresh = new_enforcer(self.box, self.variant, getattr(self, 'enforce_new_now', self.enforce_new), self.defaults, self.overwrite, nreg=self.nreg)
+                    fresh_dec = decisions(fresh, self.roles, 'enforce')
+                rec['fresh'] = fresh_dec
                 if snapshot_defaults(self.defaults) != self.snap:
                     rec['shared'] = 0
             except Exception as ex:
